@@ -537,6 +537,13 @@ static void coopDynLine(Rng & rng, std::unique_ptr<FM::CooperativeModel> & obj, 
             F::State s1 = nth(S, k);
             l << m.getTransitionProbability(s, a, s1) << m.getTransitionFunction().getTransitionProbability(ps, pa, F::toPartialFactors(s1));
         }
+        // a marginal: the PartialFactors overload on a non-empty, possibly non-prefix subset of the next-state features
+        F::PartialFactors sub;
+        for (size_t q = 0; q < S.size(); ++q) if (rng.coin()) { sub.first.push_back(q); sub.second.push_back(rng.below(S[q])); }
+        if (sub.first.empty()) { size_t q = S.size() - 1 - rng.below(std::min<size_t>(2, S.size())); sub.first.push_back(q); sub.second.push_back(rng.below(S[q])); }
+        l << (size_t)sub.first.size(); for (auto x : sub.first) l << (size_t)x; for (auto x : sub.second) l << (size_t)x;
+        l << m.getTransitionFunction().getTransitionProbability(ps, pa, sub);
+        if (sub.first[0] != 0) stat("coopdyn:marginal_non_prefix");
     }
     l.emit();
     stat("coopdyn:lines"); stat("coopdyn:queries", (long)qs.size()); stat("coopdyn:features_" + std::to_string(S.size()));
